@@ -19,12 +19,11 @@ META = {
 
 LOADPATH = [
     "utils.open", "utils.load", "utils.loads", "parser.Parser.parse", "parser.Parser.load", "parser.Parser.parse_file", "parser.Parser.open_file",
-    "parser.Parser.load_includes", "parser.Parser._get_include_filename", "parser.Parser._assign_comments", "transformer.MapfileToDict.transform",
+    "parser.Parser.load_includes", "parser.Parser._assign_comments", "transformer.MapfileToDict.transform",
 ]
 LARK_FAMILY = {"ParseError", "UnexpectedInput", "UnexpectedToken", "UnexpectedCharacters", "UnexpectedEOF", "LarkError", "VisitError", "LexError", "GrammarError"}
 # partial operations confirmed safe by construction (normalised text -> reason)
 SAFE_TABLE = {
-    ("parser.Parser._get_include_filename", "line.split('#')[0]"): "str.split never returns an empty list",
     ("parser.Parser.load_includes", "lines.pop(idx)"): "idx enumerates the same list and the replacement is index-stable (C15 I4)",
 }
 RAISE_TABLE = {
@@ -112,6 +111,7 @@ def run(ctx: Ctx) -> None:
             bad = [o for o in outs if isinstance(o[0], str) and o[0].startswith("raise:") and o[0][6:] not in LARK_FAMILY]
             ctx.check(not bad, "X2", f"token loop: previous={pdesc} current={ck}/{cn}", repo.loc("parser", repo.func("parser.Parser.parse")), f"outcomes {sorted({str(o[0]) for o in outs})}", f"Parser.parse raises {[o[0][6:] for o in bad]} (not a Lark error) when the current token is {ck} and the value stack is {pdesc}")
     # include-line shapes
+    gif_q, gif_m = models.include_filename_func(e)
     I = e.interp(allow_fork=True, max_paths=64)
     word = lambda nm: Atom(nm, excludes=frozenset(" \t\n\r\x0b\x0c#"))
     shapes = {
@@ -125,9 +125,9 @@ def run(ctx: Ctx) -> None:
         "  include '<f>'": lambda: SStr(["  include '", word("f"), "'"]),
     }
     for name, mk in shapes.items():
-        outs = I.explore("parser.Parser._get_include_filename", lambda mk=mk: (pai.Inst("parser.Parser"), [mk()], {}))
+        outs = I.explore(gif_q, lambda mk=mk: (pai.Inst("parser.Parser") if gif_m else None, [mk()], {}))
         bad = [o for o in outs if o.kind == "raise" and o.exc not in LARK_FAMILY]
-        ctx.check(not bad, "X2", f"include line shape: {name}", repo.loc("parser", repo.func("parser.Parser._get_include_filename")), f"{len(outs)} path(s), no foreign exception", f"_get_include_filename raises {[o.exc for o in bad]} for a line of the form '{name}'")
+        ctx.check(not bad, "X2", f"include line shape: {name}", repo.loc("parser", repo.func(gif_q)), f"{len(outs)} path(s), no foreign exception", f"_get_include_filename raises {[o.exc for o in bad]} for a line of the form '{name}'")
 
     # ---- X3 --------------------------------------------------------------------------------------
     ctx.rule("X3", "MapfileTransformer, CommentsTransformer and Canonize derive from lark's Transformer classes and do not override the callback-wrapping machinery", 3)
